@@ -75,6 +75,13 @@ def alphabet_U1(conf):
     return ops
 
 
+def alphabet_U0(conf):
+    """one ordered pair only: small enough for the search to close (every reachable state of the one-pair machine)"""
+    ops = [('add', 0, 1, t, e) for (t, e) in spans(conf['w'])]
+    ops.append(('addnot', 0, 1))
+    return ops
+
+
 def bulk_ops(conf, sp):
     """bulk helpers in method form where the class has it, functional form always"""
     ops = []
